@@ -1,7 +1,7 @@
 """C14 - secret-independent execution in constant-time test mode (DESIGN 5 C14, 4.5, 4.6).
 Lean: leak-site inventory + CTEST neutralisation theorems (source level).  Observed: exact edge and
 load/store-address traces of the optimised build, equal across secrets; sensitivity controls must differ."""
-import random
+import json, os, random
 import core, fam
 
 Q = 8380417
@@ -16,9 +16,16 @@ def groups(tier, rng):
     """(name, lines, must_be_equal)"""
     n = 1000 if tier == 'thorough' else 160     # a leak on a rare secret event (a few % of seeds) needs this many draws to be seen
     G = []
+    # corpus (checks/mk_corpus_ct.py): RNG outputs whose single constant-time pass puts a secret coefficient on a rare value - a Decompose corner,
+    # an exact zero, a norm exactly at a rejection bound, a hint count above omega - (1e-2 .. 1e-4 per draw): a branch taken only there shows as a pair
+    try:
+        ct = json.load(open(os.path.join(core.VERIF, 'corpus', 'ct_corner_seeds.json')))
+    except Exception:
+        ct = {}
     for s in fam.SETS:
+        corner = sorted({d for ds in ct.get(s, {}).get('events', {}).values() for d in ds})
         G.append((f'dudect_keygen_sign_with_rng ML-DSA-{s}: all RNG outputs', [f"t.dudect {s} 6d7367 {bytes(rng.randrange(256) for _ in range(64)).hex()}" for _ in range(n)]
-                  + [f"t.dudect {s} 6d7367 {'00' * 64}", f"t.dudect {s} 6d7367 {'ff' * 64}"], True))
+                  + [f"t.dudect {s} 6d7367 {'00' * 64}", f"t.dudect {s} 6d7367 {'ff' * 64}"] + [f"t.dudect {s} 6d7367 {d}" for d in corner], True))
     k = 40 if tier == 'thorough' else 6
     D = 2143289343
     G.append(('center_mod on secret coefficients', [f"t.center_mod {rp(rng, -D, D)}" for _ in range(k)] + [f"t.center_mod {','.join(['4190208'] * 256)}", f"t.center_mod {','.join(['-4190209'] * 256)}"], True))
